@@ -42,6 +42,7 @@ type c20Case struct {
 }
 
 type c20World struct {
+	base  string // index file base name (volume names are derived from it)
 	names []string
 	prot  map[string][]byte
 	a2    *arch
@@ -144,7 +145,7 @@ func (w *c20World) buildState(dir, ext, state string) (needed, possible, indexOK
 		possible = bad <= len(vols)
 	}
 	indexOK = true
-	idx := filepath.Join(dir, "set."+ext)
+	idx := filepath.Join(dir, w.base+"."+ext)
 	switch state {
 	case "badindex":
 		b, _ := ioutil.ReadFile(idx)
@@ -167,30 +168,35 @@ func runC20(args []string) error {
 	}
 	defer lg.Close()
 	rng := rand.New(rand.NewSource(c.seed*79 + 6))
-	w := &c20World{names: []string{"one.dat", "two.dat", "three.dat"}, prot: map[string][]byte{}}
-	for _, n := range w.names {
-		d := make([]byte, 300+rng.Intn(300))
-		rng.Read(d)
-		w.prot[n] = d
-	}
-	if w.a2, err = buildArch(filepath.Join(c.dir, "c20p2"), w.names, w.prot, 64, 4, 2, "set"); err != nil {
-		return err
-	}
-	if w.a1, err = buildArch1(filepath.Join(c.dir, "c20p1"), w.names, w.prot, 2, "set"); err != nil {
-		return err
-	}
-	w.subProt = map[string][]byte{"one.dat": w.prot["one.dat"], "two.dat": w.prot["two.dat"]}
-	for k := 0; ; k++ {
-		name := fmt.Sprintf("sub/three%d.dat", k)
-		w.subProt[name] = w.prot["three.dat"]
-		w.subNames = []string{"one.dat", "two.dat", name}
-		if w.aSub, err = buildArch(filepath.Join(c.dir, "c20p2sub"), w.subNames, w.subProt, 64, 30, 2, "set"); err != nil {
+	// two worlds that differ only in the index file's base name; cases alternate between them
+	var worlds []*c20World
+	for wi, base := range []string{"set", "backup.tar"} {
+		w := &c20World{base: base, names: []string{"one.dat", "two.dat", "three.dat"}, prot: map[string][]byte{}}
+		for _, n := range w.names {
+			d := make([]byte, 300+rng.Intn(300))
+			rng.Read(d)
+			w.prot[n] = d
+		}
+		if w.a2, err = buildArch(filepath.Join(c.dir, fmt.Sprintf("c20p2-%d", wi)), w.names, w.prot, 64, 4, 2, w.base); err != nil {
 			return err
 		}
-		if w.aSub.Order[0] != name {
-			break
+		if w.a1, err = buildArch1(filepath.Join(c.dir, fmt.Sprintf("c20p1-%d", wi)), w.names, w.prot, 2, w.base); err != nil {
+			return err
 		}
-		delete(w.subProt, name)
+		w.subProt = map[string][]byte{"one.dat": w.prot["one.dat"], "two.dat": w.prot["two.dat"]}
+		for k := 0; ; k++ {
+			name := fmt.Sprintf("sub/three%d.dat", k)
+			w.subProt[name] = w.prot["three.dat"]
+			w.subNames = []string{"one.dat", "two.dat", name}
+			if w.aSub, err = buildArch(filepath.Join(c.dir, fmt.Sprintf("c20p2sub-%d", wi)), w.subNames, w.subProt, 64, 30, 2, w.base); err != nil {
+				return err
+			}
+			if w.aSub.Order[0] != name {
+				break
+			}
+			delete(w.subProt, name)
+		}
+		worlds = append(worlds, w)
 	}
 	f, err := os.Open(c.in)
 	if err != nil {
@@ -211,7 +217,7 @@ func runC20(args []string) error {
 		go func() {
 			defer wg.Done()
 			for j := range jobs {
-				if err := w.runCase(c, lg, *parBin, j.ci, j.cs); err != nil {
+				if err := worlds[j.ci%len(worlds)].runCase(c, lg, *parBin, j.ci, j.cs); err != nil {
 					select {
 					case errs <- err:
 					default:
@@ -268,7 +274,7 @@ func (w *c20World) runCase(c *common, lg *tracelog.Log, parBin string, ci int, c
 			truth["matches_model"] = needed == k.Needed && (possible == k.Possible || !indexOK) && indexOK == k.IndexOK
 			truth["iofail"] = k.IOFail
 			if ext == "unknown" {
-				os.Rename(filepath.Join(setdir, "set.par2"), filepath.Join(setdir, "set.zip"))
+				os.Rename(filepath.Join(setdir, w.base+".par2"), filepath.Join(setdir, w.base+".zip"))
 			}
 		} else {
 			for _, n := range w.names {
@@ -294,7 +300,7 @@ func (w *c20World) runCase(c *common, lg *tracelog.Log, parBin string, ci int, c
 		case "none":
 			argv = []string{k.Spelling}
 			if k.Cmd == "create" {
-				argv = append(argv, "-s", "64", "-c", "2", spell("set."+fileExt))
+				argv = append(argv, "-s", "64", "-c", "2", spell(w.base+"."+fileExt))
 				for _, n := range w.names {
 					argv = append(argv, spell(n))
 				}
@@ -305,7 +311,7 @@ func (w *c20World) runCase(c *common, lg *tracelog.Log, parBin string, ci int, c
 				if k.Cmd == "verify" && ci%2 == 0 {
 					argv = append(argv, "-a") // full parity check (PAR1; accepted and ignored for PAR2)
 				}
-				argv = append(argv, spell("set."+fileExt))
+				argv = append(argv, spell(w.base+"."+fileExt))
 			}
 			if ci%4 == 0 {
 				argv = append([]string{"-g", "3"}, argv...)
@@ -315,11 +321,11 @@ func (w *c20World) runCase(c *common, lg *tracelog.Log, parBin string, ci int, c
 		case "nocommand":
 			argv = []string{}
 		case "badcommand":
-			argv = []string{"frobnicate", spell("set." + fileExt)}
+			argv = []string{"frobnicate", spell(w.base + "." + fileExt)}
 		case "badflag":
-			argv = []string{k.Cmd, "-nosuchflag", spell("set." + fileExt)}
+			argv = []string{k.Cmd, "-nosuchflag", spell(w.base + "." + fileExt)}
 		case "badglobalflag":
-			argv = []string{"-nosuchglobal", k.Cmd, spell("set." + fileExt)}
+			argv = []string{"-nosuchglobal", k.Cmd, spell(w.base + "." + fileExt)}
 		case "nooperand":
 			argv = []string{k.Cmd}
 		}
@@ -372,7 +378,7 @@ func (w *c20World) runCase(c *common, lg *tracelog.Log, parBin string, ci int, c
 		}
 		setWritten := false
 		if k.Cmd == "create" && status == 0 {
-			idx := filepath.Join(setdir, "set."+fileExt)
+			idx := filepath.Join(setdir, w.base+"."+fileExt)
 			if ext == "par2" {
 				vo := runVerify(idx, 1, false, nil)
 				setWritten = vo.Err == "" && !vo.Needed && vo.PUsable == 2
